@@ -202,6 +202,9 @@ def run_small(shard):
 
 def text_cases(tier):
     out = [('stereo', s) for s in inputs.ring_stereo_family()]
+    out += [('interdependent', s) for s in inputs.interdependent_family()]
+    out += [('hydride', s) for s in ('[BH4-]', 'N#C[BH3-]', 'CC1(C)OBOC1(C)C', '[AlH4-]', 'CC(C)C[AlH]CC(C)C', 'CCCC[SnH](CCCC)CCCC', '[NH3+][BH3-]', 'C[SiH3]', '[GeH4]', 'CB(C)C', 'OB(O)c1ccccc1',
+                                     'C1CCC2CCCC1B2', '[LiH]', '[NaH]', 'C[PH2]', '[AsH3]', 'C[SeH]', '[MgH2]', 'C[ZnH]', 'CC[GaH2]')]
     out += [('corpus', s) for s in M.corpus(stride=8 if tier == 'quick' else 1)]
     return out
 
